@@ -1,16 +1,23 @@
 """C12 — inclusion isotonicity: widening an input never narrows an output.
 
-proof  : Pun.Props.C12 (interval + - * / and number operands from exactness = set image; sort_mono; Frechet / perfect /
-         opposite / independent rules; constructor identity on well-formed bounds; public add/sub/mul under f,p,o,i;
-         neg, number operands, env, imp, monotone unary maps; weighted stacking (generalised inverse is monotone in the
-         focal endpoints); alpha-cut index independent of the operand; nested expressions of any depth; slicing)
+proof  : Pun.Lemmas.Iso + Pun.Props.C12 — sort_mono; Frechet / perfect / opposite / independent / naive rules isotone;
+         constructor identity on well-formed bounds; public add/sub under f,p,o,i, mul under p,o,i (all signs) and under f
+         (non-negative), neg, number operands, monotone unary maps, env, imp; interval + - * / with intervals and numbers on
+         either side (exact image => isotone), nested interval expressions of any depth; nested p-box expressions over the
+         proven nodes; weighted stacking (the generalised inverse is monotone in the focal endpoints); alpha-cut index
+         independent of the operand; slicing with a fixed number of slices (direct strategy)
 tie    : every run of a pair (X, Y) / (X', Y) is sent to the model: single interval operations -> Pun.Arith.binop,
          single p-box operations -> Pun.PBox.*, nested expressions -> Pun.Iso.ITree.eval / PTree.eval, stacking,
-         alpha_cut, slicing -> Pun.Iso.*
-oracle : the REAL results of the two runs compared bound by bound (exact Fractions; integer / dyadic streams exactly,
-         float streams up to rounding).  X within X' is produced both ways: a random widening of X, and a narrowing
-         of X' (down to a point / a precise distribution), so a wrong bound of ONE result is seen as a sub-result
-         sticking out of it.  An exception on operands inside the operation's domain is a failure.
+         alpha_cut, slicing -> Pun.Iso.*; the exact model results of a pair are compared with each other as well
+oracle : (1) the REAL results of the two runs compared bound by bound (binary64 comparisons are exact; integer / dyadic
+         streams exactly, float streams up to rounding).  X within X' is produced both ways: a random widening of X, and a
+         narrowing of X' (down to a point / a precise distribution).
+         (2) the dual statement with an exactly known sub-result: a point / precise sub-box has the exact arithmetic
+         value (Fractions: points of interval operands, one-value-per-step selections of p-boxes paired as the dependency
+         says, exact generalised inverse for stacking, exact cut index, exact natural extension of the cut boxes for
+         slicing); it has to lie inside the real result for the box.  (2) is what finds a failing input for defects that
+         keep the code monotone (a wrong case of a table, a forgotten dependency swap, a changed grid).
+         (3) an exception on operands inside the operation's domain is a failure.
 """
 from __future__ import annotations
 import itertools, json, math, operator, warnings
@@ -1351,7 +1358,7 @@ WITNESSES = [
      "spec": {"f": "b2b", "tree": ["b", "add", ["b", "mul", ["v", 0], ["v", 0]], ["v", 1]], "strategy": "subinterval", "style": "endpoints",
               "n_sub": 2, "monotone": False, "repeated": True, "d": 2},
      "runs": [{"box": [[-0.5, 0.5], [0.0, 0.0]]}, {"box": [[-0.5, 1.5], [0.0, 0.0]]}]},
-    # interval sin/cos defects of C05 seen through a pair of runs (disappear with C05's repairs)
+    # regression cases: the interval sin/cos defects of C05 (repaired in /repo) seen through a pair of runs
     {"stream": "ivl-un", "exact": False, "spec": {"f": "ivl-un", "fn": "sin"}, "runs": [{"x": [-0.5, 0.0]}, {"x": [-1.5, 10.0]}]},
     {"stream": "pb-un", "exact": False, "spec": {"f": "pb-un", "fn": "cos"},
      "runs": [{"x": [[3.0] * STEPS, [3.0] * STEPS]}, {"x": [[0.0] * STEPS, [7.0] * STEPS]}]},
@@ -1397,6 +1404,7 @@ def run(ctx: core.Check):
                 "(integer step boxes exact, library-constructor boxes), number operands, neg, reciprocal, unary maps, env/imp (methods "
                 "and envelope()/imposition() with 2-4 mixed operands), nested p-box expressions depth<=3, stacking (list/vector/objects, "
                 "weights), alpha_cut, slicing (fixed n_slices), b2b (direct/endpoints/subinterval with fixed n_sub). "
+                "Each run is also checked against exactly computed results of point / precise sub-boxes. "
                 "Non-trivial = the two runs differ in at least one operand; distinct on (operation, both operand sets).")
     ctx.assumptions = ["binary64 rounding not modelled: integer / dyadic streams compared exactly, float streams within 4*depth ulp of the largest magnitude",
                        "transcendental unary maps are parameters of the theorems (monotone); their values are supplied by numpy on the wire",
